@@ -262,7 +262,10 @@ func runC13Sched(c *core.Ctx) {
 			if regexp.MustCompile(`VIOLATION property=C13shard`).MatchString(r.err) {
 				c.Violate("C13/"+r.job.S.Name+"/process-crash", "the exploration process died inside repository code: "+r.err, r.job.S, "", nil)
 			} else {
-				c.Abort("shard %s failed: %s", r.job.S.Name, r.err)
+				// died outside the controlled threads and outside repository code (a goroutine the overlay does not own, the
+				// scheduler itself): no verdict from this scenario; reported as not explored, the free-running passes go on
+				exhaustive = false
+				c.Set("not_explored_"+r.job.S.Name, "exploration process failed: "+tail(r.err, 600))
 			}
 			continue
 		}
